@@ -266,7 +266,7 @@ def toDictLS (kf vf : Value → M Value) (acc : KV) : VL → Option Err → M KV
   | x :: xs, e => do
     let k ← kf x
     let v ← vf x
-    if hashable k then toDictLS kf vf (Seq.dSet acc k v) xs e else fail .type
+    if hashable k then toDictLS kf vf (Seq.dSet acc k v) xs e else fail (keyErr k)
 
 def keysLS (f : Value → M Value) : VL → M (List (Except Err Value))
   | [] => pure []
@@ -515,7 +515,7 @@ def callMethodS (ev : EvS) (Ca : Nat) (bad : Err) (r : ObjS) (f : Fn) (args : Li
       let ko ← ev Ca k
       let kv ← liftR (toVS ko)
       let _ ← childCtx Ca
-      if hashable kv then pure (.data (.val ((Seq.dGet d kv).getD .null))) else fail .type
+      if hashable kv then pure (.data (.val ((Seq.dGet d kv).getD .null))) else fail (keyErr kv)
     | _ => fail bad
   | .get, [k, dflt] =>
     match r with
@@ -525,7 +525,7 @@ def callMethodS (ev : EvS) (Ca : Nat) (bad : Err) (r : ObjS) (f : Fn) (args : Li
       let dobj ← ev Ca dflt
       let dv ← liftR (toVS dobj)
       let _ ← childCtx Ca
-      if hashable kv then pure (.data (.val ((Seq.dGet d kv).getD dv))) else fail .type
+      if hashable kv then pure (.data (.val ((Seq.dGet d kv).getD dv))) else fail (keyErr kv)
     | _ => fail bad
   | .unpack, names =>
     match toIterS r with
